@@ -459,6 +459,22 @@ func r19a(c *core.Ctx) {
 				}
 			})
 			c.Check(ok, k+":test-and-set", op.In.Pos(), op.Fn, "reserve inserts only when the key was absent (and reports false otherwise)", condList(op.In.Block()))
+			// …atomically: the lookup and the insert lie in one critical section (no release of the mutex between them)
+			atomic := true
+			core.EachInstr(op.Fn, func(_ *ssa.BasicBlock, _ int, in ssa.Instruction) {
+				lk, isLk := in.(*ssa.Lookup)
+				if !isLk || !lk.CommaOk || core.Expr(lk.Index) != core.Expr(op.Key) {
+					return
+				}
+				rel := core.Reach(op.Fn, lk, func(x ssa.Instruction) bool {
+					_, isRel := isLockOp(x, lockRelease, "")
+					return isRel
+				}, func(x ssa.Instruction) bool { return x == op.In })
+				if rel != nil && core.Reach(op.Fn, rel, func(x ssa.Instruction) bool { return x == op.In }, nil) != nil {
+					atomic = false
+				}
+			})
+			c.Check(atomic, k+":one-critical-section", op.In.Pos(), op.Fn, "the presence test and the insert happen under one acquisition of the mutex (two concurrent hits cannot both find the key absent)", "")
 		case "delete":
 			c.Check(op.Fn == done, k, op.In.Pos(), op.Fn, "entries are removed only by done", "")
 		}
